@@ -1,6 +1,6 @@
 (* C11 - PEP 440 comparison is a total order on the key of the property text.
    Model: Model/Pep440.v (ordering.rs).  Spec: Spec/Pep440Spec.v (pep_key, pep_key_cmp). *)
-From ZV Require Import Str Pep440 OrderFacts Pep440Spec Pep440Order SemVer SemVerProofs.
+From ZV Require Import Str Pep440 OrderFacts Pep440Spec Pep440Order SemVer SemVerProofs PepParseNf.
 
 (* the comparison is the lexicographic order on (epoch, release without trailing zeros, pre phase and number
    with none highest, post with none lowest, dev with none highest, local with none lowest) *)
@@ -67,6 +67,14 @@ Example c11_ex :
   pep_cmp (mkp [1;0] None None None) (mkp [1;0;0] None None None) = Eq.
 Proof. vm_compute. split; reflexivity. Qed.
 
+(* SPELLING INDEPENDENCE through the normal form: two accepted strings that zerv normalises to the same text are parsed to the SAME value -
+   whatever their case, separators, label spellings, leading zeros, v prefix or implicit numbers - hence compare equal (and the parser
+   never distinguishes what the printer identifies) *)
+Theorem c11_same_normal_form_same_value : forall s1 s2 v1 v2, pep_parse s1 = Some v1 -> pep_parse s2 = Some v2 -> pep_print v1 = pep_print v2 -> v1 = v2.
+Proof. exact same_normal_form_same_value. Qed.
+Theorem c11_same_normal_form_equal : forall s1 s2 v1 v2, pep_parse s1 = Some v1 -> pep_parse s2 = Some v2 -> pep_print v1 = pep_print v2 -> pep_cmp v1 v2 = Eq.
+Proof. exact same_normal_form_equal. Qed.
+
 Print Assumptions c11_is_key_order.
 Print Assumptions c11_key_order_good.
 Print Assumptions c11_eq_iff_key.
@@ -76,3 +84,5 @@ Print Assumptions c11_trans.
 Print Assumptions c11_trailing_zeros.
 Print Assumptions c11_phase_chain.
 Print Assumptions c11_max_well_defined.
+Print Assumptions c11_same_normal_form_same_value.
+Print Assumptions c11_same_normal_form_equal.
